@@ -52,7 +52,7 @@ class P(vlib.Prop):
     level_text = ("c14_dq_complete / c14_dq_symmetric_complete (for every number and order of architectures the set a resolution starts from is exactly: some OTHER requested architecture lacks this name+version — through NewMultiArch's ByArch map, "
                   "ResolveWorld's sibling loop and disqualifyDifference on package objects), c14_byarch_keys_distinct + c14_no_sibling_dropped (finite enumeration over types.AllArchs read from the source), c14_filtered_members(_multi) "
                   "(a member that is not an install_if package is available at that version on every requested architecture), c14_no_foreign_version_partial, c14_single_arch_unaffected, c14_cache_own_grouping (after any history a call is handed the difference of its own grouping), "
-                  "c14_dq_reason_names_a_lacking_sibling, c14_same_world_same_versions_partial hold for all inputs (unbounded); REFUTED by kernel-checked witnesses replayed on the real code: c14_no_foreign_version / "
+                  "c14_concurrent_calls_serialised (Get is one critical section: every order of concurrent whole calls hands each its own difference), c14_dq_reason_names_a_lacking_sibling, c14_same_world_same_versions_partial hold for all inputs (unbounded); REFUTED by kernel-checked witnesses replayed on the real code: c14_no_foreign_version / "
                   "c14_filtered_members_multi without the install_if proviso (finding C14-F1), c14_cache_keyed_by_concatenation (non-vacuity: the lookup before fix 3541d7b, the former finding C08-F2), c14_same_world_same_versions (two architectures offering the same packages install "
                   "lib-1.0-r0 and lib-1.0: equal-comparing versions, first candidate wins — availability, which is what the property states, is not violated); c14_source_shape pins the source shapes the wiring model transcribes; "
                   "the model is tied to the code by goextract (key expression, AllArchs, loop shapes, message format) and by differential comparison through the real NewMultiArch / ResolveWorld / BuildPackageLists and through call histories.")
